@@ -200,6 +200,28 @@ func GenDataSpec(r *simrt.Rand, n int, wantUnique bool) *DataSpec {
 	return sp
 }
 
+// weirdColumnNames: legal column names for the library and the wire (any string without NUL)
+// that are not identifiers of the query language.
+var weirdColumnNames = []string{"", "a,b", "a b", "ü", "a=b", "\"q\"", "a;b", "x\ny", "1st", "(", "Count", "a,", ",", "%v", "a\tb"}
+
+// WeirdNames renames a seeded subset of the columns to non-identifier names. Only for worlds
+// that do not go through the textual query language.
+func (sp *DataSpec) WeirdNames(r *simrt.Rand) {
+	used := map[string]bool{}
+	for _, c := range sp.Cols {
+		used[string(c.Name)] = true
+	}
+	for i := range sp.Cols {
+		if r.Chance(1, 3) {
+			n := weirdColumnNames[r.Intn(len(weirdColumnNames))]
+			if !used[n] && n != sp.Unique {
+				used[n] = true
+				sp.Cols[i].Name = S(n)
+			}
+		}
+	}
+}
+
 // schemaInfo lists columns and values of a dataset for expression generation.
 type schemaInfo struct {
 	cols []string
